@@ -1,6 +1,8 @@
 package mon
 
 import (
+	"net/http"
+	"bytes"
 	"errors"
 	"fmt"
 	"math/rand/v2"
@@ -170,6 +172,30 @@ type c05Chain struct {
 	NGlobal       int // the first NGlobal handlers are global middleware
 	NGroup        int // then group middleware
 	GlobalUseCalls int // globals added by this many Use calls
+	// uninstrumented global middleware registered in front of everything else
+	Recover    bool // a recover()-and-go-on middleware (inert unless something panics)
+	Wrapper    bool // a buffering middleware: replaces c.Resp, replays status (default 200) and body after Next()
+	FailWrites bool // the client is gone: the first body write at the underlying writer fails
+}
+
+// c05Buffer is what a buffering/compressing middleware puts into c.Resp.
+type c05Buffer struct {
+	hdr    http.Header
+	status int
+	body   bytes.Buffer
+}
+
+func (b *c05Buffer) Header() http.Header { return b.hdr }
+func (b *c05Buffer) WriteHeader(code int) {
+	if b.status == 0 {
+		b.status = code
+	}
+}
+func (b *c05Buffer) Write(p []byte) (int, error) {
+	if b.status == 0 {
+		b.status = 200
+	}
+	return b.body.Write(p)
 }
 
 func (cc c05Chain) describe() any {
@@ -177,7 +203,7 @@ func (cc c05Chain) describe() any {
 	for i, h := range cc.Chain {
 		ss[i] = h.String()
 	}
-	return map[string]any{"chain": ss, "global": cc.NGlobal, "group": cc.NGroup, "route": len(cc.Chain) - 1 - cc.NGlobal - cc.NGroup, "total_handlers": len(cc.Chain)}
+	return map[string]any{"recover_middleware_first": cc.Recover, "buffering_middleware_first": cc.Wrapper, "first_body_write_fails": cc.FailWrites, "chain": ss, "global": cc.NGlobal, "group": cc.NGroup, "route": len(cc.Chain) - 1 - cc.NGlobal - cc.NGroup, "total_handlers": len(cc.Chain)}
 }
 
 func (cc c05Chain) build() *rux.Router {
@@ -188,6 +214,33 @@ func (cc c05Chain) build() *rux.Router {
 	}
 	n := len(hs)
 	g, q := cc.NGlobal, cc.NGroup
+	if cc.Recover {
+		r.Use(func(c *rux.Context) {
+			defer func() {
+				if rv := recover(); rv != nil {
+					recOf(c).Ev("recovered-a-panic(%v)", rv)
+				}
+			}()
+			c.Next()
+		})
+	}
+	if cc.Wrapper {
+		r.Use(func(c *rux.Context) {
+			orig := c.Resp
+			buf := &c05Buffer{hdr: orig.Header()}
+			c.Resp = buf
+			c.Next()
+			c.Resp = orig
+			st := buf.status
+			if st == 0 {
+				st = 200
+			}
+			orig.WriteHeader(st)
+			if buf.body.Len() > 0 {
+				_, _ = orig.Write(buf.body.Bytes())
+			}
+		})
+	}
 	// globals: in one or several Use calls
 	if g > 0 {
 		if cc.GlobalUseCalls <= 1 {
@@ -340,6 +393,28 @@ func runC05(e *Env) {
 		}
 		cc.NGroup = r.IntN(mw - cc.NGlobal + 1)
 		cc.GlobalUseCalls = 1 + r.IntN(2)
+		cc.Recover = chance(r, 1, 4)
+		cc.FailWrites = chance(r, 1, 4)
+		if chance(r, 1, 4) {
+			plain := true
+			for _, h := range cc.Chain {
+				if h.SetStatusFirst != 0 || (h.Ab != nil && (h.Ab.WriteBefore || h.Ab.PreStatus != 0)) {
+					plain = false
+				}
+			}
+			// (what a status recorded past the buffer, or a write in front of it, should become is the
+			// buffering middleware's business, not the statement's: only plain plans get one)
+			cc.Wrapper = plain
+		}
+		if cc.Recover {
+			t.Count("long.with_recover_middleware", 1)
+		}
+		if cc.FailWrites {
+			t.Count("long.first_write_fails", 1)
+		}
+		if cc.Wrapper {
+			t.Count("long.with_buffering_middleware", 1)
+		}
 		t.Count("long.total_"+itoa(total), 1)
 		c05Check(t, cc)
 	})
@@ -365,7 +440,11 @@ func c05Check(t *T, cc c05Chain) {
 	t.AutoSample()
 	spec := &specRun{chain: cc.Chain}
 	spec.Next()
-	rec, pv, panicked := Serve(router, NewReq("GET", "/g/x"))
+	rec := NewRec()
+	if cc.FailWrites {
+		rec.FailAt, rec.Short = 1, 0
+	}
+	pv, panicked := catch(func() { router.ServeHTTP(rec, NewReq("GET", "/g/x")) })
 	if panicked {
 		t.Fail("servehttp-panic", "ServeHTTP panicked: %v", pv)
 		return
@@ -428,7 +507,7 @@ func c05Check(t *T, cc c05Chain) {
 			t.Fail(sig, "chain %v: expected exactly one WriteHeader(%d) (response committed before the abort: %v); the writer saw: %s", cc.describe(), wantStatus, committedBefore, rec.CallLog())
 			return
 		}
-		if ab.Kind == "AbortWithStatusMsg" {
+		if ab.Kind == "AbortWithStatusMsg" && !cc.FailWrites {
 			wantBody := "msg\n"
 			if committedBefore {
 				wantBody = "wmsg\n"
